@@ -62,6 +62,42 @@ def main():
                 time.sleep(0.002)
             time.sleep(prog["gap"])
             child = None
+            if prog.get("interrupted_relaunch"):
+                # first attempt with warnings turned into errors: the relaunch is interrupted after the dead handle was dropped
+                with warnings.catch_warnings():
+                    warnings.simplefilter("error")
+                    try:
+                        rt.register(f + ".first", "file")
+                    except BaseException:
+                        pass
+            if prog["op"] == "threads":
+                import threading
+                n = prog.get("nthreads", 3)
+                bar = threading.Barrier(n)
+                errs, files = [], []
+
+                def reg(j):
+                    p_ = f + f".t{j}"
+                    open(p_, "w").close()
+                    files.append(p_)
+                    try:
+                        bar.wait(10)
+                        rt.register(p_, "file")
+                    except BaseException as e:
+                        errs.append(f"{type(e).__name__}: {e}")
+
+                ths = [threading.Thread(target=reg, args=(j,)) for j in range(n)]
+                with warnings.catch_warnings(record=True) as wl:
+                    warnings.simplefilter("always")
+                    [t.start() for t in ths]
+                    [t.join(30) for t in ths]
+                time.sleep(0.5)          # a tracker that wrongly saw EOF would have cleaned the files up by now
+                missing = [os.path.basename(p_) for p_ in files if not os.path.exists(p_)]
+                evs.append({"err": "; ".join(errs) or None, "new_pid": rt._resource_tracker._pid,
+                            "warned": any("relaunching" in str(x.message) for x in wl) or bool(prog.get("interrupted_relaunch")),
+                            "child": None, "files_missing": missing})
+                pids.append(rt._resource_tracker._pid)
+                continue
             with warnings.catch_warnings(record=True) as wl:
                 warnings.simplefilter("always")
                 try:
@@ -81,7 +117,8 @@ def main():
                     err = None
                 except BaseException as e:
                     err = f"{type(e).__name__}: {e}"
-            evs.append({"err": err, "new_pid": rt._resource_tracker._pid, "warned": any("relaunching" in str(x.message) for x in wl),
+            evs.append({"err": err, "new_pid": rt._resource_tracker._pid,
+                        "warned": any("relaunching" in str(x.message) for x in wl) or bool(prog.get("interrupted_relaunch")),
                         "child": child})
             pids.append(rt._resource_tracker._pid)
         # the last tracker works: a registered file is removed on maybe_unlink
